@@ -1235,6 +1235,17 @@ class Engine:
             return Const("a-string")
         if isinstance(a, Const) and isinstance(a.py, str) and op == "Mod":
             return Const("a-string")
+        if isinstance(a, Mat) and isinstance(b, Num) and op in ("Div", "Mult"):
+            # numpy object matrix (/ or *) scalar: entry-wise; division by zero raises
+            if op == "Div":
+                self.raise_exc(st, "ZeroDivisionError", b.real() == 0, line, exits)
+            new = Mat(fresh("mscaled", MATSORT), a.r, a.c)
+            i, j = fresh_int("i"), fresh_int("j")
+            old_e = z3.Select(z3.Select(a.arr, i), j)
+            val = old_e / b.real() if op == "Div" else old_e * b.real()
+            st.assume(z3.ForAll([i, j], z3.Implies(z3.And(i >= 0, i < a.r, j >= 0, j < a.c), z3.Select(z3.Select(new.arr, i), j) == val),
+                                patterns=[z3.Select(z3.Select(new.arr, i), j)]))
+            return new
         if isinstance(a, Obj):
             h = self.c.calls.get("binop:%s:%s" % (op, a.cls))
             if h is not None:
